@@ -534,6 +534,9 @@ func (req *Request) Process(store StorageClient, stat *Stats) (resp *Response, e
 		key := req.Keys[0]
 		var suc bool
 		suc, err = store.Append(key, req.Item.Body)
+		// the store copies what it keeps: the request buffer is done
+		cmem.DBRL.SetData.SubSizeAndCount(req.Item.CArray.Cap)
+		req.Item.CArray.Free()
 		if err != nil {
 			resp.Status = "SERVER_ERROR"
 			resp.Msg = err.Error()
@@ -622,6 +625,13 @@ func (req *Request) Process(store StorageClient, stat *Stats) (resp *Response, e
 		resp = nil
 
 	default:
+		// read but not supported (prepend, decr): give back what Read accounted
+		if req.Cmd == "decr" {
+			cmem.DBRL.SetData.SubCount(1)
+		} else if req.Item != nil {
+			cmem.DBRL.SetData.SubSizeAndCount(req.Item.CArray.Cap)
+			req.Item.CArray.Free()
+		}
 		resp = nil
 		logger.Errorf("Should not reach here, req.Cmd: %s", req.Cmd)
 	}
